@@ -172,10 +172,12 @@ pub struct TreeCfg {
     /// percentage of leaves that are literals or constants
     pub lit_pct: u32,
     pub unary_pct: u32,
+    /// weights of the shapes: random splits, left-deep chain, right-deep nest
+    pub shape_weights: [u32; 3],
 }
 impl Default for TreeCfg {
     fn default() -> Self {
-        TreeCfg { max_operands: 8, lit_pct: 45, unary_pct: 20 }
+        TreeCfg { max_operands: 8, lit_pct: 45, unary_pct: 20, shape_weights: [6, 2, 1] }
     }
 }
 
@@ -239,7 +241,7 @@ pub fn gen_tree_n(t: &mut Tape, ti: &TableIdx, nvars: usize, cfg: &TreeCfg, n: u
 pub fn gen_tree(t: &mut Tape, table: &[OpSpec], nvars: usize, cfg: &TreeCfg) -> Tree {
     let ti = TableIdx::new(table);
     let n = 1 + t.choose(cfg.max_operands);
-    let shape = t.weighted(&[6, 2, 1]);
+    let shape = t.weighted(&cfg.shape_weights);
     gen_tree_n(t, &ti, nvars, cfg, n, shape)
 }
 
